@@ -16,6 +16,7 @@ import (
 	_ "verif/harness/c01"
 	_ "verif/harness/c03"
 	_ "verif/harness/c05"
+	_ "verif/harness/c06"
 	_ "verif/harness/c07"
 	_ "verif/harness/c10"
 	_ "verif/harness/c11"
